@@ -101,6 +101,17 @@ fn swap_desc(text: &str, node_ids: &std::collections::HashMap<String, String>) -
     }
 }
 
+/// the kind of swap behind a candidate, from the structural SwapInfo (not from any text)
+fn swap_kind(c: &ScheduleWithInfo) -> &'static str {
+    match c.get_last_swap_info() {
+        SwapInfo::SpawnVehicleForMaintenance(_) => "SpawnVehicleForMaintenance",
+        SwapInfo::PathExchange(_) => "PathExchange",
+        SwapInfo::AddTripForHitchHiking(_) => "AddTripForHitchHiking",
+        SwapInfo::RemoveSingleNode(_) => "RemoveSingleNode",
+        SwapInfo::NoSwap => "NoSwap",
+    }
+}
+
 fn run_cand(item: &serde_json::Value, out: &mut Out, max_cands: usize, call_stride: u64) {
     let name = item["name"].as_str().unwrap_or("?").to_string();
     let input = item["input"].clone();
@@ -158,6 +169,7 @@ fn run_cand(item: &serde_json::Value, out: &mut Out, max_cands: usize, call_stri
                     }
                     match guarded(|| solution::verif::project(c.get_schedule())) {
                         Ok(p) => out.emit(&json!({"ev": "cand", "name": name, "swap": c.get_print_text(),
+                            "kind": swap_kind(c),
                             "sw": swap_desc(c.get_print_text(), &node_ids), "S": p})),
                         Err(m) => out.emit(&json!({"ev": "candfail", "name": name, "swap": c.get_print_text(), "msg": m})),
                     }
